@@ -22,12 +22,10 @@ theorem setStatic_recOk {rank R X w t} (hb : Base rank R X w) (hex : existsF w t
     · exact o.chLe ch h
     · cases h; exact Nat.le_refl _
   · exact o.ckLe
-  · exact o.csumFile
+  · intro _ h; cases h
   · intro _ _; rw [hrs]; simp
-  · exact o.srcNoCsum
-  · intro h; rw [setStatic_changed]; split
-    · exact o.csumCh h
-    · simp
+  · exact fun _ => trivial
+  · intro h; exact absurd rfl h
   · exact fun _ => trivial
   · intro e; subst e; rw [hb.fs0] at hn; cases hn
   · intro _; rw [setStatic_changed]
@@ -55,10 +53,31 @@ theorem setStatic_spec {rank R X w t b po} (hi : Inv rank R X w) (hex : existsF 
   have hnf : ∀ w0 : World, NoFail R w0 → NoFail R (setRec w0 t (setStatic w t (w.recs t) R)) :=
     fun w0 h => h.setRec (by simp)
   by_cases hg : Good w R t
-  · have hrc := hg.recCur hi
-    rw [setStatic_cur hrc (hgg hg) (hi.base.noOvr t)]
-    have e := WEqv.setRec_self w t
-    exact ⟨e.inv hi, (e.good R t).2 hg, e.toBExt, fun h => h.eqv e⟩
+  · -- the record stays as it is, except that a checksum it still carried is dropped
+    have hrc := hg.recCur hi
+    have hgen := hgg hg
+    have off := OffT.setRec w t (setStatic w t (w.recs t) R)
+    have hch : (setStatic w t (w.recs t) R).changed = (w.recs t).changed := by
+      rw [setStatic_changed, if_pos hrc.2.2]
+    have hrc' : RecCur (setRec w t (setStatic w t (w.recs t) R)) t :=
+      ⟨by simp, by simp only [setRec_recs_self, hch]; exact hrc.2.1, by simp⟩
+    have hgood' : Good (setRec w t (setStatic w t (w.recs t) R)) R t := Or.inr ⟨hrc', by simp⟩
+    have hvr : ∀ {r : Rec}, r.failed = none → r.checked = (w.recs t).checked → r.changed = (w.recs t).changed →
+        ((r.failed = none ∧ (r.checked = some R ∨ r.changed = some R)) ↔ VerR w R t) := by
+      intro r h1 h2 h3; unfold VerR; rw [h1, h2, h3, hrc.1]
+    have hdet : ∀ u, u ≠ t → RecCur w u → (w.recs u).isGenerated = true → HasRow w u t true →
+        Hdet w (setRec w t (setStatic w t (w.recs t) R)) t (Mof (w.recs u)) :=
+      hdet_quietN rfl (by simp [hch]) (by simp) (fun h => absurd hrc.2.2 h) (fun h => absurd hrc.1 h.1)
+    have hb' := Base_upd (X' := X) hi.base off (setStatic_recOk hi.base hex) (fun _ _ h => h) hi.base.rowsLt
+      hi.base.cPlain hdet (fun _ _ hgen => by simp at hgen)
+    have hver : Ver R (setRec w t (setStatic w t (w.recs t) R)) :=
+      Ver_upd_quiet hi off rfl (by simp [hgen]) (fun _ => hgood')
+        (fun hv => (hvr (r := setStatic w t (w.recs t) R) (by simp) (by simp) hch).1 (by simpa [VerR] using hv))
+        (fun _ => ⟨hrc', fun hg => by simp at hg⟩)
+    refine ⟨⟨hb', hi.Rpos, hver⟩, hgood', off.toBExt hi.base hlt (fun hv => ⟨?_, rfl, by simp [hgen]⟩)
+      (fun _ _ => ⟨hrc', by simp, rfl⟩), hnf w⟩
+    have := (hvr (r := setStatic w t (w.recs t) R) (by simp) (by simp) hch).2 hv
+    simpa [VerR] using this
   · have off := OffT.setRec w t (setStatic w t (w.recs t) R)
     have hrc' : RecCur (setRec w t (setStatic w t (w.recs t) R)) t := by
       refine ⟨by simp, ?_, by simp⟩
@@ -70,7 +89,7 @@ theorem setStatic_spec {rank R X w t b po} (hi : Inv rank R X w) (hex : existsF 
     have hdet : ∀ u, u ≠ t → RecCur w u → (w.recs u).isGenerated = true → HasRow w u t true →
         Hdet w (setRec w t (setStatic w t (w.recs t) R)) t (Mof (w.recs u)) := by
       by_cases hs : (w.recs t).stamp = some (readStamp w t)
-      · exact hdet_quiet rfl (by simp [setStatic_changed, hs]) (by simp [setStatic_csum]) (fun h => absurd hs h)
+      · exact hdet_quietN rfl (by simp [setStatic_changed, hs]) (by simp) (fun h => absurd hs h)
           (fun h => absurd h (notFA_of_cur hex hs))
       · exact hdet_loud hi hg (by simp [setStatic_changed, hs])
     have hb' := Base_upd (X' := X) hi.base off (setStatic_recOk hi.base hex) (fun _ _ h => h) hi.base.rowsLt
@@ -167,7 +186,7 @@ theorem setStatic_spec' {rank R w w' t b po} {X X' : Nat → Prop} (hi : Inv ran
   have hdet : ∀ u, u ≠ t → RecCur w u → (w.recs u).isGenerated = true → HasRow w u t true →
       Hdet w w' t (Mof (w.recs u)) := by
     by_cases hs : (w.recs t).stamp = some (readStamp w t)
-    · refine hdet_quiet (contentOf_congr hfs) ?_ (by rw [hrec.csum, setStatic_csum]) (fun h => absurd hs h)
+    · refine hdet_quietN (contentOf_congr hfs) ?_ (by rw [hrec.csum, setStatic_csum]) (fun h => absurd hs h)
         (fun h => absurd h (notFA_of_cur hex hs))
       rw [hrec.changed, setStatic_changed, if_pos hs]
     · exact hdet_loud hi hng (by rw [hrec.changed, setStatic_changed, if_neg hs])
@@ -185,7 +204,7 @@ theorem setStatic_flds {a b : Rec} (h : Flds a b) (w : World) (t R : Nat) :
   · simp [h.checked]
   · rw [setStatic_changed, setStatic_changed, h.stamp, h.changed]
   · simp
-  · simp [h.csum]
+  · simp
 
 theorem setFailed_flds {a b : Rec} (h : Flds a b) (w : World) (t R : Nat) :
     Flds (setFailed w t a R) (setFailed w t b R) := by
